@@ -4,7 +4,7 @@
    bytes). The theorem says the record writer of version kw and the record reader of version kr
    realise layer V, for ALL legal histories, ALL pairs (kw, kr), ALL values and ALL suffixes. *)
 From Coq Require Import NArith ZArith List.
-From Desert Require Import Outcome IO Types Codec CodecWf History RecordRt RecordChunkedSpec EvolutionSpec Evolution EvolutionTop.
+From Desert Require Import Outcome IO Types Codec CodecWf History RecordRt RecordChunkedSpec EvolutionSpec Evolution EvolutionTop EvolutionEnum.
 Import ListNotations.
 Open Scope N_scope.
 
@@ -70,5 +70,28 @@ Example C03_example_history :
   framed H 0 3 = false /\ framed H 1 3 = true.
 Proof. vm_compute. repeat split. Qed.
 
+(* the same for the constructors of an ENUM: variant j of an enum - at any position, sorted or not,
+   whatever the other variants are - written with version kw of its own history and read with
+   version kr (each variant carries its own metadata and header; the constructor index is
+   unaffected because only names enter the order) *)
+Theorem C03_pairs_variant : forall f H kw kr nm vname pre post sorted vw st b st' s k,
+  legal H = true -> history_neutral H = true ->
+  (kw <= length (h_steps H))%nat -> (kr <= length (h_steps H))%nat ->
+  let j := nlen pre in
+  let Ew := [mkD nm (DEnum (enum_with vname pre post sorted (decl_at H kw)))] in
+  let Er := [mkD nm (DEnum (enum_with vname pre post sorted (decl_at H kr)))] in
+  wf_val (S (S f)) Ew (TNamed 0) (VNode j vw) = true ->
+  enc (S (S f)) Ew (TNamed 0) (VNode j vw) st = Ok (b, st') ->
+  exists f',
+  match expected H kw kr vw with
+  | Ok vs => exists rest st'',
+      dec a_ops f' Er (TNamed 0) (mkA (b ++ s) k st) = Ok (VNode j vs, mkA rest k st'') /\
+      (framed H kw kr = true -> rest = s)
+  | Err e => dec a_ops f' Er (TNamed 0) (mkA (b ++ s) k st) = Err e
+  | _ => False
+  end.
+Proof. exact c03_variant. Qed.
+
 Print Assumptions C03_pairs.
+Print Assumptions C03_pairs_variant.
 Print Assumptions C03_pairs_top.
